@@ -18,7 +18,23 @@ import json
 import os
 import re
 
-from vlib import read_jsonl, canon_hash
+from vlib import canon_hash
+
+
+def read_jsonl(path):
+    """one JSON value per line; a harness that died mid-write leaves a truncated last line: skip it"""
+    out = []
+    if not os.path.exists(path):
+        return out
+    for line in open(path, errors="replace"):
+        line = line.strip()
+        if not line:
+            continue
+        try:
+            out.append(json.loads(line))
+        except ValueError:
+            continue
+    return out
 
 
 def load_corpus_dir(pid):
@@ -461,11 +477,8 @@ def run(ctx):
             reported[sig] = reported.get(sig, 0) + 1
             ctx.violation(sig, what, rep)
 
+    anomalies = ["%s: %s" % (tr["name"], a) for tr in traces for a in (tr.get("anomalies") or [])]
     for tr in traces:
-        for a in tr.get("anomalies") or []:
-            n_anom += 1
-            if n_anom <= 2:
-                ctx.tie_broken("harness anomaly", "%s: %s" % (tr["name"], a))
         for sig, what in scenario_oracle(tr):
             report(sig, "%s: %s" % (tr["name"], what), {"object": "internal/net.Client + ProtoServer", "scenario": by_name.get(tr["name"]),
                                                          "events": [e for e in tr["events"] if e["k"] != "snap"][:80]})
@@ -475,12 +488,23 @@ def run(ctx):
                                "rerun": "VERIF_SEED=%d bin/check C28 %s" % (ctx.seed, ctx.tier)})
 
     for c in e2e:
-        if not c.get("err") and (c.get("res") or []) != c["reqs"]:
+        if c.get("panic"):
+            report("remote-ask:panic-on-foreign-reply",
+                   "%s round %d (pool bound %d) caller %d sent %s and the client panicked: %s (a response carrying more messages than the call's requests is not this call's response)" %
+                   ("RemoteBatchAsk" if c["batch"] else "RemoteAsk", c["round"], c["max_idle"], c["t"], c["reqs"], c["panic"]),
+                   {"object": "remoteclient.RemoteAsk/RemoteBatchAsk -> actor.remoteAskHandler", "call": c})
+        elif not c.get("err") and (c.get("res") or []) != c["reqs"]:
             report("remote-ask:foreign-reply" if not c["batch"] else "remote-batch-ask:order",
                    "%s round %d (pool bound %d) caller %d sent %s and received %s" %
                    ("RemoteBatchAsk" if c["batch"] else "RemoteAsk", c["round"], c["max_idle"], c["t"], c["reqs"], c.get("res")),
                    {"object": "remoteclient.RemoteAsk/RemoteBatchAsk -> actor.remoteAskHandler", "call": c,
                     "rerun": "VERIF_SEED=%d bin/check C28 %s" % (ctx.seed, ctx.tier)})
+
+    if anomalies and n_viol == 0:
+        for a in anomalies[:2]:
+            ctx.tie_broken("harness anomaly", a)
+    elif anomalies:
+        ctx.notes.append("%d harness anomalies follow from the reported violations, e.g. %s" % (len(anomalies), anomalies[0]))
 
     codes = None
     if traces:
